@@ -316,7 +316,7 @@ func (u *Universe) prelude() string {
 		}
 		body := u.bodyText
 		if strings.Contains(body, "(slen ") {
-			b.WriteString("(assert (forall ((s Str)) (! (>= (slen s) 0) :pattern ((slen s)))))\n")
+			b.WriteString("(assert (forall ((s Str)) (! (and (>= (slen s) 0) (<= (slen s) 281474976710655)) :pattern ((slen s)))))\n")
 			if _, ok := u.lits[""]; ok {
 				b.WriteString("(assert (forall ((s Str)) (! (=> (= (slen s) 0) (= s lit$empty)) :pattern ((slen s)))))\n")
 			}
